@@ -9,6 +9,7 @@ import re
 from .canon import Canon, eq_sides, origin
 from .extract import AnalysisBroken
 from .facts import estr, unwrap, walk
+from .rule_l import atoms_at, fmt_atoms
 
 KERNEL = "OpenVolumeMesh::TopologyKernel"
 VEC_VH = "const std::vector<OpenVolumeMesh::VH> &"
@@ -336,9 +337,12 @@ def run(ck, fb, fbd):
         if isinstance(x, dict) and x.get("k") == "call" and x.get("pn", "").split("::")[-1] == "size":
             r = unwrap(x.get("r"))
             if isinstance(r, dict) and r.get("k") == "var" and r.get("id") in l.cn.decl and l.cn.decl[r["id"]][0]["t"].startswith("std::set<OpenVolumeMesh::VH"):
-                ins = [m for k, bb, ii, m in l.cn.mods.get(r["id"], []) if m.get("pn", "").split("::")[-1] in ("insert", "emplace")]
+                ins = [(bb, m) for k, bb, ii, m in l.cn.mods.get(r["id"], []) if m.get("pn", "").split("::")[-1] in ("insert", "emplace")]
                 why = "%d insert site(s)" % len(ins)
-                for m in ins:
+                for bb, m in ins:
+                    if atoms_at(l.f, bb):
+                        why += "; insert under the extra condition %s (every halfedge of the cell has to contribute)" % fmt_atoms(atoms_at(l.f, bb))
+                        continue
                     a = unwrap(l.f.resolve(m["a"][0])) if m.get("a") else None
                     ep = l.endpoint(a) if a is not None else None
                     if not ep:
@@ -399,9 +403,12 @@ def collected(l, n, rel, owner):
         return False, "not a local vector"
     ms = l.cn.mods.get(x["id"], [])
     pushes = [m for k, bb, ii, m in ms if m.get("pn", "").split("::")[-1] in ("push_back", "emplace_back")]
+    pblocks = [bb for k, bb, ii, m in ms if m.get("pn", "").split("::")[-1] in ("push_back", "emplace_back")]
     other = [m for k, bb, ii, m in ms if m.get("pn", "").split("::")[-1] not in ("push_back", "emplace_back", "reserve")]
     if other or len(pushes) != 1:
         return False, "%d push site(s), %d other modification(s)" % (len(pushes), len(other))
+    if atoms_at(l.f, pblocks[0]):
+        return False, "push under the extra condition %s" % fmt_atoms(atoms_at(l.f, pblocks[0]))
     o = l.org(pushes[0]["a"][0])
     laps = o[2][0] if o and o[2] else "1"
     return bool(o and o[0] == rel and o[1] == owner and laps == "1"), "pushes %s" % (o,)
@@ -474,7 +481,7 @@ def rotate(ck, l, judge):
         ms = cn.mods.get(x["id"], [])
         pushes = [(bb, ii, m) for k, bb, ii, m in ms if m.get("pn", "").split("::")[-1] in ("push_back", "emplace_back")]
         other = [m for k, bb, ii, m in ms if m.get("pn", "").split("::")[-1] not in ("push_back", "emplace_back", "reserve")]
-        ok_push = len(pushes) == 1 and not other
+        ok_push = len(pushes) == 1 and not other and not atoms_at(f, pushes[0][0])
         it = None
         if ok_push:
             a = unwrap(f.resolve(pushes[0][2]["a"][0]))
